@@ -58,6 +58,12 @@ Theorem C09_need_refines_name_partial : forall fl n t r h,
   exists m, run fl m [] t = r.
 Proof. intros fl n t r h Hfl. exact (need_refines_name fl Hfl n t r h). Qed.
 
+Theorem C09_need_extract_refines_name_partial : forall fl n t path r h,
+  forallb (fun p => acyclic (snd p)) fl = true -> acyclic t = true ->
+  extractN fl Good n t path = (r, h) -> r <> OutOfFuel -> r <> Err InfiniteRec ->
+  exists m, extract fl m [] t path = r.
+Proof. intros fl n t path r h Hfl. exact (need_extract_refines_name fl Hfl n t path r h). Qed.
+
 (* the full statement (let rec and recursive records included) — not proved *)
 Definition C09_full_need_refines_name : Prop :=
   forall fl t, refines_on fl Good t.
